@@ -422,7 +422,7 @@ fn random_scn(ctx: &mut Ctx, rng: &mut Rng) -> Scn {
                 let r = pick_room(rng);
                 let mut batch: Vec<NodeIt> = vec![];
                 for _ in 0..(1 + rng.below(4)) {
-                    let tamper = match rng.below(40) { 0 => Tamper::Sig, 1 => Tamper::Field, _ => Tamper::No };
+                    let tamper = match rng.below(120) { 0 => Tamper::Sig, 1 => Tamper::Field, _ => Tamper::No };
                     let existing = if !nodes.is_empty() && rng.chance(2, 5) { Some(rng.pick(&nodes).clone()) } else { None };
                     let it = match existing {
                         Some(old) if !batch.iter().any(|b| b.id == old.id) => {
@@ -460,14 +460,18 @@ fn random_scn(ctx: &mut Ctx, rng: &mut Rng) -> Scn {
                 steps.push(Step::Nodes(r, batch));
             }
             8..=12 => {
-                let r = pick_room(rng);
+                // mostly the room of a row the receiver holds
+                let with_room: Vec<u64> = pre_nodes.iter().filter_map(|n| n.room).collect();
+                let r = if !with_room.is_empty() && rng.chance(4, 5) { *rng.pick(&with_room) } else { pick_room(rng) };
                 let mut batch = vec![];
                 for _ in 0..(1 + rng.below(3)) {
                     if nodes.is_empty() { break; }
-                    let tamper = match rng.below(40) { 0 => Tamper::Sig, 1 => Tamper::Field, _ => Tamper::No };
+                    let tamper = match rng.below(120) { 0 => Tamper::Sig, 1 => Tamper::Field, _ => Tamper::No };
                     // mostly a source row of the room of the call
+                    let held: Vec<&NodeIt> = pre_nodes.iter().filter(|n| n.room == Some(r)).collect();
                     let cands: Vec<&NodeIt> = nodes.iter().filter(|n| n.room == Some(r)).collect();
-                    let s = if !cands.is_empty() && rng.chance(3, 4) { (*rng.pick(&cands)).clone() } else { rng.pick(&nodes).clone() };
+                    let s = if !held.is_empty() && rng.chance(4, 5) { (*rng.pick(&held)).clone() }
+                            else if !cands.is_empty() && rng.chance(3, 4) { (*rng.pick(&cands)).clone() } else { rng.pick(&nodes).clone() };
                     let t = rng.pick(&nodes).clone();
                     let ent = if rng.chance(1, 12) { if rng.chance(1, 3) { None } else { Some(1 + rng.below(3)) } } else { s.ent };
                     let src = if rng.chance(1, 15) { 900 + rng.below(3) } else { s.id };
@@ -485,7 +489,7 @@ fn random_scn(ctx: &mut Ctx, rng: &mut Rng) -> Scn {
                 let mut batch = vec![];
                 for _ in 0..(1 + rng.below(3)) {
                     if nodes.is_empty() { break; }
-                    let tamper = match rng.below(40) { 0 => Tamper::Sig, 1 => Tamper::Field, _ => Tamper::No };
+                    let tamper = match rng.below(120) { 0 => Tamper::Sig, 1 => Tamper::Field, _ => Tamper::No };
                     let n = rng.pick(&nodes).clone();
                     let room = match rng.below(10) { 0 => pick_room(rng), _ => n.room.unwrap_or(1) };
                     let ent = if rng.chance(1, 8) { if rng.chance(1, 4) { None } else { Some(1 + rng.below(3)) } } else { n.ent };
@@ -501,7 +505,7 @@ fn random_scn(ctx: &mut Ctx, rng: &mut Rng) -> Scn {
                 let mut batch = vec![];
                 for _ in 0..(1 + rng.below(3)) {
                     if edges.is_empty() { break; }
-                    let tamper = match rng.below(40) { 0 => Tamper::Sig, 1 => Tamper::Field, _ => Tamper::No };
+                    let tamper = match rng.below(120) { 0 => Tamper::Sig, 1 => Tamper::Field, _ => Tamper::No };
                     let e = rng.pick(&edges).clone();
                     let src_room = nodes.iter().rev().find(|n| n.id == e.src).and_then(|n| n.room).unwrap_or(1);
                     let room = match rng.below(10) { 0 => pick_room(rng), _ => src_room };
@@ -517,11 +521,40 @@ fn random_scn(ctx: &mut Ctx, rng: &mut Rng) -> Scn {
     Scn { defs, pre_nodes, pre_edges, steps, what: "random".into() }
 }
 
+/// the same scenario with the rows of every batch in another order (only batches in which no two
+/// rows share a key: there the code is order dependent by construction, the later row wins)
+fn shuffled(s: &Scn, rng: &mut Rng) -> Option<Scn> {
+    fn shuffle<T: Clone>(v: &[T], rng: &mut Rng) -> Vec<T> {
+        let mut v = v.to_vec();
+        for i in (1..v.len()).rev() { let j = rng.below(i as u64 + 1) as usize; v.swap(i, j); }
+        v
+    }
+    fn distinct<K: std::hash::Hash + Eq>(k: Vec<K>) -> bool { let n = k.len(); k.into_iter().collect::<HashSet<K>>().len() == n }
+    let mut steps = vec![];
+    let mut changed = false;
+    for st in &s.steps {
+        steps.push(match st {
+            Step::Nodes(r, b) => { if !distinct(b.iter().map(|x| x.id).collect()) { return None; } changed |= b.len() > 1; Step::Nodes(*r, shuffle(b, rng)) }
+            Step::Edges(r, b) => { if !distinct(b.iter().map(|x| (x.src, x.label, x.dest)).collect()) { return None; } changed |= b.len() > 1; Step::Edges(*r, shuffle(b, rng)) }
+            Step::NDels(b) => { if !distinct(b.iter().map(|x| x.id).collect()) { return None; } changed |= b.len() > 1;
+                let idx = shuffle(&(0..b.len()).collect::<Vec<_>>(), rng);
+                Step::NDels(idx.iter().map(|i| { let d = &b[*i]; NDelIt { tag: d.tag, room: d.room, id: d.id, ent: d.ent, mdate: d.mdate, date: d.date, author: d.author, sig_ok: d.sig_ok, entry: clone_ndel(&d.entry) } }).collect()) }
+            Step::EDels(b) => { if !distinct(b.iter().map(|x| (x.src, x.label, x.dest)).collect()) { return None; } changed |= b.len() > 1;
+                let idx = shuffle(&(0..b.len()).collect::<Vec<_>>(), rng);
+                Step::EDels(idx.iter().map(|i| { let d = &b[*i]; EDelIt { tag: d.tag, room: d.room, src: d.src, ent: d.ent, label: d.label, dest: d.dest, cdate: d.cdate, date: d.date, author: d.author, sig_ok: d.sig_ok, entry: clone_edel(&d.entry) } }).collect()) }
+        });
+    }
+    if !changed { return None; }
+    Some(Scn { defs: s.defs.clone(), pre_nodes: s.pre_nodes.clone(), pre_edges: s.pre_edges.clone(), steps, what: "random, batches shuffled, second receiver".into() })
+}
+
 #[tokio::main(flavor = "multi_thread", worker_threads = 4)]
 async fn main() {
     let mut out = Out::create();
     let mut rng = Rng::from_env();
     let rig = Rig::start("C02", "b", MODEL).await;
+    let rig2 = Rig::start("C02", "p", MODEL).await;
+    let mut perm_runs = 0usize;
     let n = scale(700, 7000);
     let mut case: u64 = 0;
     let mut which = 0;
@@ -538,11 +571,26 @@ async fn main() {
         };
         let tags = ctx.tags.clone();
         let (obs, st) = run_scn(&rig, case, &scn, &tags).await;
+        // order / batch independence: the same signed rows, every batch in another order, on a second
+        // receiver: same answers and same tables.  A difference is reported as a case whose observation
+        // is the second receiver's (the model, fed the original order, then disagrees).
+        if kind == "random" && case % 4 == 0 {
+            let mut r2 = rng.fork();
+            if let Some(sh) = shuffled(&scn, &mut r2) {
+                let (obs2, _) = run_scn(&rig2, case, &sh, &tags).await;
+                perm_runs += 1;
+                if obs2 != obs {
+                    out.push(Case { kind: "order-dependence".into(), coq: scn_coq(&scn, &rig.dm), obs: obs2.clone(), meta: json!({"what": "batch order changed the outcome", "first": obs.clone()}) });
+                }
+            }
+        }
         let items: usize = scn.steps.iter().map(|s| match s { Step::Nodes(_, b) => b.len(), Step::Edges(_, b) => b.len(), Step::NDels(b) => b.len(), Step::EDels(b) => b.len() }).sum();
         out.push(Case { kind: kind.into(), coq: scn_coq(&scn, &rig.dm), obs,
             meta: json!({"what": scn.what, "steps": scn.steps.len(), "items": items, "pre_rows": scn.pre_nodes.len() + scn.pre_edges.len(),
                          "stored_delta": st.stored, "rejected_ids": st.rejected, "failed_calls": st.failed_calls}) });
     }
+    eprintln!("shuffled re-runs on the second receiver: {}", perm_runs);
     out.finish();
     rig.stop();
+    rig2.stop();
 }
